@@ -185,6 +185,19 @@ theorem get_readonly {c : Cache K C V} (hinv : Inv c) (k : K) :
   unfold Cache.getVal Cache.get
   rw [find?_eq_of_mem_iff hinv.nodup hinv.nodup.promote (fun e => mem_promote hinv.nodup) k']
 
+/-- `Snapshot()` (a debug accessor that reads through `store.Get`) is read-only on the content as well. -/
+theorem snapshot_readonly {c : Cache K C V} (hinv : Inv c) :
+    Inv c.snapshot ∧ c.snapshot.token = c.token ∧ c.snapshot.index = c.index ∧ c.snapshot.evictQ = c.evictQ ∧
+    (∀ k', c.snapshot.getVal k' = c.getVal k') := by
+  unfold Cache.snapshot
+  generalize (c.store.reverse.map fun e => e.key) = ks
+  induction ks generalizing c with
+  | nil => exact ⟨hinv, rfl, rfl, rfl, fun _ => rfl⟩
+  | cons k ks ih =>
+    have h1 := get_readonly hinv k
+    obtain ⟨i2, t2, x2, q2, g2⟩ := ih (hinv.get k)
+    refine ⟨i2, t2.trans h1.1, x2.trans h1.2.1, q2.trans h1.2.2.1, fun k' => (g2 k').trans (h1.2.2.2 k')⟩
+
 /-! ## Ghost history: invalidation events and their times -/
 
 /-- An accepted change: the time `Clear`/`ClearAll` read from the clock and what it covered
@@ -298,8 +311,8 @@ theorem never_stale_token (cap : Nat) (ops : List (Op K C V)) (hm : AllOps MonoC
 
 /-- The system around the cache, as far as the property needs it.
     `A` proxies/requests; `read a` the part of a request that generation reads; `X` config contents;
-    `W n` the world (content of every config) after `n` accepted changes; `depsOf r` the configs the entry
-    declares (`DependentConfigs()`); `gen r S` the generator on snapshot `S`; `key a S` the cache key computed
+    `W n` the world (content of every config) after `n` accepted changes; `depsOf r S` the configs the entry
+    declares (`DependentConfigs()`) when generated for `r` on snapshot `S`; `gen r S` the generator on snapshot `S`; `key a S` the cache key computed
     for request `a` **on snapshot `S`**.
 
     Generation may read configs that `depsOf` does NOT name (the real CDS/RDS generators do: PeerAuthentication,
@@ -308,11 +321,12 @@ theorem never_stale_token (cap : Nat) (ops : List (Op K C V)) (hm : AllOps MonoC
     change stays stored but can no longer be *reached*. This is what `KeyDetermines` states; nothing below claims
     that stored entries are fresh.
 
-    Restriction of this formalisation: the declared dependency list is a function of `read a` alone. -/
+    The declared dependency list may depend on the snapshot (`depsOf r S`: the applicable DestinationRules,
+    VirtualServices, EnvoyFilters are found in the snapshot), as the real `DependentConfigs()` does. -/
 structure Discipline (K C V A R X : Type) where
   key : A → (C → X) → K
   read : A → R
-  depsOf : R → List C
+  depsOf : R → (C → X) → List C
   gen : R → (C → X) → V
   W : Nat → C → X
 
@@ -325,14 +339,14 @@ variable {A R X : Type}
     generated for `a` on `S`. It contains key completeness across proxies (`S = S'`) and key versioning of every
     config generation reads beyond the declared dependencies. -/
 def Discipline.KeyDetermines (D : Discipline K C V A R X) : Prop :=
-  ∀ a b S S', (∀ d ∈ D.depsOf (D.read a), S d = S' d) → D.key a S = D.key b S' →
+  ∀ a b S S', (∀ d ∈ D.depsOf (D.read a) S, S d = S' d) → D.key a S = D.key b S' →
     D.gen (D.read a) S = D.gen (D.read b) S'
 
 /-- What one writer / invalidator must respect (side condition of an operation, relative to the
     invalidations executed before it).
 
     * a writer stores, under the key of its request `a` computed on its snapshot `W snap` (`snap` =
-      number of accepted changes its data reflects), with the dependencies `depsOf (read a)`, the value
+      number of accepted changes its data reflects), with the dependencies `depsOf (read a) (W snap)`, the value
       generated from that snapshot, and its token is **older than every already executed invalidation of
       one of its dependencies that the snapshot does not reflect** - this is what "the token is read no
       later than the snapshot" gives;
@@ -340,7 +354,7 @@ def Discipline.KeyDetermines (D : Discipline K C V A R X) : Prop :=
       `cs` only (`ClearAll` may change everything). -/
 def Coherent (D : Discipline K C V A R X) (hist : List (Inval C)) : Op K C V → Prop
   | .add k v (some tok) deps =>
-    v = none ∨ ∃ a snap, k = D.key a (D.W snap) ∧ deps = D.depsOf (D.read a) ∧ snap ≤ hist.length ∧
+    v = none ∨ ∃ a snap, k = D.key a (D.W snap) ∧ deps = D.depsOf (D.read a) (D.W snap) ∧ snap ≤ hist.length ∧
       v = some (D.gen (D.read a) (D.W snap)) ∧
       ∀ j (hj : j < hist.length), snap ≤ j → (∃ d ∈ deps, (hist[j]).covers d = true) → tok < (hist[j]).time
   | .clear now cs _ =>
@@ -382,7 +396,7 @@ structure FreshInv (D : Discipline K C V A R X) (c : Cache K C V) (hist : List (
   tokinv : TokInv c hist
   frame : Frame D hist
   origin : ∀ e ∈ c.store, ∀ v, e.val = some v →
-    ∃ a S, e.key = D.key a S ∧ e.deps = D.depsOf (D.read a) ∧ v = D.gen (D.read a) S ∧
+    ∃ a S, e.key = D.key a S ∧ e.deps = D.depsOf (D.read a) S ∧ v = D.gen (D.read a) S ∧
       ∀ d ∈ e.deps, S d = D.W hist.length d
 
 theorem Frame.snoc_clear {D : Discipline K C V A R X} {hist : List (Inval C)} (hf : Frame D hist)
@@ -478,7 +492,7 @@ theorem FreshInv.init (D : Discipline K C V A R X) (cap : Nat) : FreshInv D (Cac
 theorem never_stale (D : Discipline K C V A R X) (cap : Nat)
     (ops : List (Op K C V)) (hc : AllOps (Coherent D) [] ops) :
     ∀ e ∈ ((Cache.new cap).run ops).store, ∀ v, e.val = some v →
-      ∃ a S, e.key = D.key a S ∧ e.deps = D.depsOf (D.read a) ∧ v = D.gen (D.read a) S ∧
+      ∃ a S, e.key = D.key a S ∧ e.deps = D.depsOf (D.read a) S ∧ v = D.gen (D.read a) S ∧
         ∀ d ∈ e.deps, S d = D.W (histOf ops).length d := by
   have := (FreshInv.init D cap).run ops hc
   simp only [List.nil_append] at this
@@ -529,7 +543,7 @@ end
 /-- A world with one interesting config `0` whose content is the number of accepted changes;
     the generated value is that content; the key is the request itself. -/
 def D0 : Discipline Nat Nat Nat Nat Nat Nat :=
-  { key := fun a _ => a, read := fun a => a, depsOf := fun _ => [0], gen := fun _ S => S 0,
+  { key := fun a _ => a, read := fun a => a, depsOf := fun _ _ => [0], gen := fun _ S => S 0,
     W := fun n d => if d = 0 then n else 0 }
 
 theorem D0_keyDetermines : D0.KeyDetermines := by
@@ -540,7 +554,7 @@ theorem D0_keyDetermines : D0.KeyDetermines := by
     its token and that snapshot) -/
 def Uncoordinated (D : Discipline Nat Nat Nat Nat Nat Nat) (hist : List (Inval Nat)) : Op Nat Nat Nat → Prop
   | .add k v (some _) deps =>
-    v = none ∨ ∃ a snap, k = D.key a (D.W snap) ∧ deps = D.depsOf (D.read a) ∧ snap ≤ hist.length ∧
+    v = none ∨ ∃ a snap, k = D.key a (D.W snap) ∧ deps = D.depsOf (D.read a) (D.W snap) ∧ snap ≤ hist.length ∧
       v = some (D.gen (D.read a) (D.W snap))
   | .clear now cs _ =>
     (∀ i ∈ hist, i.time ≤ now) ∧ ∀ d, d ∉ cs → D.W (hist.length + 1) d = D.W hist.length d
@@ -600,7 +614,7 @@ example : ((Cache.new 3 : Cache Nat Nat Nat).run [.add 7 (some 0) (some 5) [0], 
 
 /-- A key that forgets an attribute generation reads (here: the key is constant). -/
 def Dbad : Discipline Nat Nat Nat Nat Nat Nat :=
-  { key := fun _ _ => 0, read := fun a => a, depsOf := fun _ => [], gen := fun r _ => r, W := fun _ _ => 0 }
+  { key := fun _ _ => 0, read := fun a => a, depsOf := fun _ _ => [], gen := fun r _ => r, W := fun _ _ => 0 }
 
 /-- **key_incomplete_witness.** With an incomplete key (`KeyDetermines` fails), proxy 2 is served the resource
     generated for proxy 1 although every writer is coherent. -/
@@ -623,7 +637,7 @@ PeerAuthentication without naming it in `DependentConfigs()`; the key carries th
 `peerAuthVersion` in `clusterCache.Key`. -/
 
 def D1 : Discipline (Nat × Nat) Nat (Nat × Nat) Nat Nat Nat :=
-  { key := fun a S => (a, S 1), read := fun a => a, depsOf := fun _ => [0], gen := fun _ S => (S 0, S 1),
+  { key := fun a S => (a, S 1), read := fun a => a, depsOf := fun _ _ => [0], gen := fun _ S => (S 0, S 1),
     W := fun n d => if d = 1 then n else 0 }
 
 theorem D1_keyDetermines : D1.KeyDetermines := by
@@ -634,7 +648,7 @@ theorem D1_keyDetermines : D1.KeyDetermines := by
 
 /-- `D1`'s generator is NOT local to its declared dependencies (the hypothesis the previous formulation needed) -/
 theorem D1_not_genLocal :
-    ¬ ∀ r S S', (∀ d ∈ D1.depsOf r, S d = S' d) → D1.gen r S = D1.gen r S' := by
+    ¬ ∀ r S S', (∀ d ∈ D1.depsOf r S, S d = S' d) → D1.gen r S = D1.gen r S' := by
   intro h
   have := h 0 (fun _ => 0) (fun d => if d = 1 then 1 else 0) (by simp [D1])
   simp [D1] at this
@@ -1080,7 +1094,7 @@ theorem impl_never_stale (D : Discipline K C V A R X) (isPA : C → Bool)
     (hc : (Impl.run isPA (Impl.new maxSize cdsOn rdsOn : Impl K C V) iops).typed t = some c)
     (hcoh : AllOps (Coherent D) [] (projRun isPA maxSize t iops)) :
     ∀ e ∈ c.store, ∀ v, e.val = some v →
-      ∃ a S, e.key = D.key a S ∧ e.deps = D.depsOf (D.read a) ∧ v = D.gen (D.read a) S ∧
+      ∃ a S, e.key = D.key a S ∧ e.deps = D.depsOf (D.read a) S ∧ v = D.gen (D.read a) S ∧
         ∀ d ∈ e.deps, S d = D.W (histOf (projRun isPA maxSize t iops)).length d := by
   rw [impl_reachable_typed isPA maxSize cdsOn rdsOn iops t c hc]
   exact never_stale D _ _ hcoh
